@@ -9,6 +9,7 @@ controller's micro-steps, any admissible heuristic choice, for every well-formed
 -/
 import EkwVerif.Lemmas.CtrlFinal
 import EkwVerif.Lemmas.CtrlN
+import EkwVerif.Lemmas.SchedTermA
 
 namespace EkwVerif.Ctrl
 
@@ -103,6 +104,222 @@ theorem c04_nonatomic_monitors (f : Sem) (j : Job) (cl : Cluster) (wf : WF j cl)
   · exact p2.2.2.1
   · exact p2.2.2.2
   · exact p3
+
+/-! ### the transmit source: the scan of `build_assignment` (audit C04 #2)
+
+`build_assignment` takes as transmit source the first host, in the iteration order of the dict `ds2host[ds]`, whose status
+is `available` (`scanSource`, Lemmas/SchedTermA.lean; the order is a parameter). In the base model the source is an oracle
+argument that `buildPrep` validates; the theorems below are about the scan itself. -/
+
+/-- **Whatever host the scan returns holds the dataset, and the scan does return one.** For every computable task and
+every input of it: (1) in whatever order the hosts are scanned, a host the scan returns is believed `available` AND its
+store really holds the dataset (belief ⇒ truth for needed datasets); (2) scanning the cluster's hosts finds a source, so
+`build_assignment` does not raise "not found in any host". -/
+theorem c04_scan_source_holds (f : Sem) (j : Job) (cl : Cluster) (wf : WF j cl) (s : Sys) (hr : Reachable f j cl s)
+    (t : Task) (ht : t ∈ s.ctl.computable) (ds : Ds) (hds : ds ∈ j.inputs t) :
+    (∀ order h, scanSource order s.ctl ds = some h →
+      s.ctl.dsHost ds h = .available ∧ (s.env.present h ds).isSome = true) ∧
+    (∃ h, scanSource cl.hosts s.ctl ds = some h) := by
+  have hA := invAll_reachable f j cl wf s hr
+  have hlt := hA.h2.comp_valid t ht
+  have hnd : s.ctl.doneC t = false := by
+    cases hd : s.ctl.doneC t with
+    | false => rfl
+    | true =>
+      have h1 := (hA.h2.ran_disp t (hA.h2.done_ran t hd)).1
+      have h0 := hA.h1.once.comp t ht
+      omega
+  have hcons : t ∈ j.consumers ds := by
+    simp only [Job.consumers, Job.taskIds, List.mem_filter, List.mem_range, List.contains_iff_mem]
+    exact ⟨hlt, hds⟩
+  have hneed : needed j s.ctl ds := Or.inl ⟨t, hcons, hnd⟩
+  refine ⟨?_, ?_⟩
+  · intro order h hs
+    have hav := (scanSource_available order s.ctl ds h hs).1
+    exact ⟨hav, hA.h4.avail_present h ds hav hneed⟩
+  · have hann := hA.h2.ready t (Or.inl ht) ds hds
+    obtain ⟨h, hh, hav⟩ := hA.h4.avail_somewhere ds hann ⟨t, hcons, hnd⟩
+    cases hsc : scanSource cl.hosts s.ctl ds with
+    | some h' => exact ⟨h', rfl⟩
+    | none => exact absurd hav (scanSource_none cl.hosts s.ctl ds hsc h hh)
+
+/-- **A redundant transfer never exists**: no transfer is outstanding towards a host that already holds the dataset, and
+at most one transfer of a dataset to a host is outstanding at a time — so the branch of the environment that silently
+drops a redundant transfer is unreachable (the auditor measured 0 occurrences in 355 transmits: it is 0 always). -/
+theorem c04_no_redundant_transmit (f : Sem) (j : Job) (cl : Cluster) (wf : WF j cl) (s : Sys) (hr : Reachable f j cl s) :
+    (∀ ds src tgt, IO.transmit ds src tgt ∈ s.env.outstanding → s.env.present tgt ds = none) ∧
+    (∀ ds tgt, (s.env.outstanding.filter (isTransmitTo ds tgt)).length ≤ 1) := by
+  have h := invAll_reachable f j cl wf s hr
+  exact ⟨fun ds src tgt hm => (h.h4.transmit_out ds src tgt hm).2.1, h.h4x.transmit_count⟩
+
+/-! ### "unanswered" (audit C04 #1)
+
+In `Env` a commanded transfer/fetch is `outstanding` until it is PERFORMED: until a copy of the payload has got through
+and is stored at the target (transfer), resp. has been put on its way to the controller (fetch). `c04_purge_safe` says a
+source is not purged while an I/O from it is outstanding in that sense. The ANSWER of a fetch is the payload reaching
+the controller; the answer of a transfer is the bare notice `DatasetPublished(transmit_idx)` of the target. -/
+
+/-- **When a dataset is queued for purging every transfer and fetch of it has had its effect** (the causal argument that
+makes "performed" sufficient): no transfer of it is outstanding anywhere (each was commanded for a consumer, and all
+consumers have completed — so each target stored the dataset), no fetch of it is outstanding, and the answer of its fetch
+has been DELIVERED to the controller (no payload of it is still on its way). All that may remain unanswered is the bare
+notice of a transfer that has already been performed (`c04_transfer_notice_full_fails`). Hand-over to C07: below the
+Bridge API a transfer is performed when the target's data server has stored a copy; C07 shows that the source re-sends
+until acked unless the dataset is purged at the source (`c07_retry_until_acked`), that a copy that gets through is stored
+and announced, and that a purge waits for sends in progress (`c07_purge_waits`); C04 supplies what C07 needs from the
+controller: the source is not purged before a copy has been stored at the target. -/
+theorem c04_queued_purge_io_done (f : Sem) (j : Job) (cl : Cluster) (wf : WF j cl) (s : Sys) (hr : Reachable f j cl s)
+    (ds : Ds) (hq : ds ∈ s.ctl.purgeQ) :
+    (∀ src tgt, IO.transmit ds src tgt ∉ s.env.outstanding) ∧ (∀ h, IO.fetch ds h ∉ s.env.outstanding) ∧
+    (∀ v, Event.payload ds v ∉ s.allEv) ∧ (ds ∈ j.ext → s.env.delivered ds = true) := by
+  have hA := invAll_reachable f j cl wf s hr
+  obtain ⟨hdone, hext, _⟩ := hA.h2.purgeQ_ok ds hq
+  refine ⟨?_, ?_, ?_, ?_⟩
+  · intro src tgt hm
+    obtain ⟨_, _, _, w, t, hqd, _, hin⟩ := hA.h4.transmit_out ds src tgt hm
+    have hfl := hA.h1.queued_flight w t hqd
+    have hlt := hA.h2.flight_valid w t hfl
+    have hcons : t ∈ j.consumers ds := by
+      simp only [Job.consumers, Job.taskIds, List.mem_filter, List.mem_range, List.contains_iff_mem]
+      exact ⟨hlt, hin⟩
+    have := hdone t hcons
+    rw [hA.h2.flight_not_done w t hfl] at this; cases this
+  · intro h hm
+    obtain ⟨hx, hnone, _⟩ := hA.h3.fetch_out ds h hm
+    have := hext hx
+    rw [hnone] at this; cases this
+  · intro v hm
+    obtain ⟨hx, hnone, _⟩ := hA.h3.payload_ok ds v hm
+    have := hext hx
+    rw [hnone] at this; cases this
+  · intro hx
+    have := hext hx
+    cases ho : s.ctl.outputs ds with
+    | none => rw [ho] at this; cases this
+    | some v => exact (hA.h3.outputs_ok ds v ho).2.1
+
+/-- the same at the moment of the purge: in the state in which `flush_queues` pops `ds` from the purging queue -/
+theorem c04_purge_io_done (f : Sem) (j : Job) (cl : Cluster) (wf : WF j cl) (s s' : Sys) (hr : Reachable f j cl s)
+    (hs : step f j cl s .flushP1 = some s') :
+    ∃ ds rest, s.ctl.purgeQ = ds :: rest ∧ (∀ src tgt, IO.transmit ds src tgt ∉ s.env.outstanding) ∧
+      (∀ h, IO.fetch ds h ∉ s.env.outstanding) ∧ (∀ v, Event.payload ds v ∉ s.allEv) := by
+  simp only [step] at hs
+  split at hs; · cases hs
+  split at hs
+  · cases hs
+  · rename_i ds rest hq
+    have := c04_queued_purge_io_done f j cl wf s hr ds (by rw [hq]; simp)
+    exact ⟨ds, rest, hq, this.1, this.2.1, this.2.2.1⟩
+
+section
+def exJobU : Job := { tasks := [{ nOut := 1, gpu := false, inputs := [] }, { nOut := 1, gpu := false, inputs := [⟨0, 0⟩] }], ext := [⟨1, 0⟩] }
+def exClU : Cluster := { workers := [(⟨0, 0⟩, false), (⟨1, 0⟩, false)] }
+def exSemU : Sem := fun t k args => s!"t{t}.{k}({args})"
+/-- `t1 ← t0.0` runs on host 1 after a transfer of `t0.0` from host 0; the completion notice of `t1` is delivered BEFORE
+the notice of the transfer -/
+def exStepsU : List Step :=
+  [.enter, .assign ⟨⟨0, 0⟩, 0, []⟩, .endAssign, .plan1, .endPlan, .endFlushF, .endFlush,
+   .env (.run ⟨0, 0⟩ 0), .recv [.pubW ⟨0, 0⟩ ⟨0, 0⟩], .notify1, .endNotify,
+   .enter, .assign ⟨⟨1, 0⟩, 1, [(⟨0, 0⟩, 0)]⟩, .endAssign, .plan1, .endPlan, .endFlushF, .endFlush,
+   .env (.io 0), .env (.run ⟨1, 0⟩ 1), .recv [.pubW ⟨1, 0⟩ ⟨1, 0⟩], .notify1, .endNotify]
+/-- … then the purge of `t0.0` on both hosts, then the late notice of the transfer -/
+def exStepsU2 : List Step :=
+  exStepsU ++ [.enter, .endAssign, .endPlan, .flushF1, .endFlushF, .flushP1, .endFlush, .recv [.pubT 1 ⟨0, 0⟩], .notify1, .endNotify]
+
+theorem aux_runSteps_reachable (f : Sem) (j : Job) (cl : Cluster) : ∀ (l : List Step) (s s' : Sys), Reachable f j cl s →
+    runSteps f j cl s l = some s' → Reachable f j cl s' := by
+  intro l
+  induction l with
+  | nil => intro s s' hr h; simp only [runSteps, Option.some.injEq] at h; subst h; exact hr
+  | cons st l ih =>
+    intro s s' hr h
+    simp only [runSteps] at h
+    cases hst : step f j cl s st with
+    | none => simp [hst] at h
+    | some s1 => simp only [hst] at h; exact ih s1 s' (Reachable.step s s1 st hr hst) h
+
+/-- **The literal reading of "unanswered" fails for transfers** (harmlessly): a dataset is queued for purging — and is
+purged at the source in the next `flush_queues` — while the notice of a transfer commanded from that source has not yet
+reached the controller. The transfer itself has been performed: `c04_queued_purge_io_done`. -/
+theorem c04_transfer_notice_full_fails :
+    ¬ (∀ (f : Sem) (j : Job) (cl : Cluster) (s : Sys), WF j cl → Reachable f j cl s →
+        ∀ ds, ds ∈ s.ctl.purgeQ → ∀ tgt, Event.pubT tgt ds ∉ s.allEv) := by
+  intro h
+  have hwf : WF exJobU exClU := by
+    refine ⟨?_, ?_, ?_, ?_, ?_, by decide⟩
+    · intro t ds hd
+      match t, hd with
+      | 0, hd => simp [exJobU, Job.inputs] at hd
+      | 1, hd => simp [exJobU, Job.inputs] at hd; subst hd; decide
+      | t + 2, hd => simp [exJobU, Job.inputs] at hd
+    · intro t ds hd
+      match t, hd with
+      | 0, hd => simp [exJobU, Job.inputs] at hd
+      | 1, hd => simp [exJobU, Job.inputs] at hd; subst hd; decide
+      | t + 2, hd => simp [exJobU, Job.inputs] at hd
+    · intro t ht
+      match t, ht with
+      | 0, _ => decide
+      | 1, _ => decide
+      | t + 2, ht => simp [exJobU] at ht; omega
+    · intro t
+      match t with
+      | 0 => decide
+      | 1 => decide
+      | t + 2 => simp [exJobU, Job.inputs]
+    · intro ds hd
+      simp [exJobU] at hd; subst hd; decide
+  cases hrun : runSteps exSemU exJobU exClU (Sys.init exJobU exClU) exStepsU with
+  | none =>
+    have : (runSteps exSemU exJobU exClU (Sys.init exJobU exClU) exStepsU).isSome = true := by decide
+    rw [hrun] at this; cases this
+  | some s =>
+    have hr := aux_runSteps_reachable exSemU exJobU exClU exStepsU _ s Reachable.init hrun
+    have h1 : ((runSteps exSemU exJobU exClU (Sys.init exJobU exClU) exStepsU).map
+        (fun s => (s.ctl.purgeQ, s.inbox, s.env.pending))) = some ([⟨0, 0⟩], [], [.pubT 1 ⟨0, 0⟩]) := by decide
+    rw [hrun] at h1
+    simp only [Option.map_some, Option.some.injEq, Prod.mk.injEq] at h1
+    have := h exSemU exJobU exClU s hwf hr ⟨0, 0⟩ (by rw [h1.1]; simp) 1
+    apply this
+    simp [Sys.allEv, h1.2.1, h1.2.2]
+
+/-- after the late notice (audit C04 #3) the controller believes `t0.0` `available` on host 1, where it has been purged:
+belief implies truth only for datasets that are still needed (`c04_belief_sound_partial`) — harmless, since a dataset
+that is not needed is never named as a source again (`c04_scan_source_holds` is about inputs of computable tasks,
+`Inv3.fetchQ_ok` about undelivered outputs) and is never purged twice -/
+example : ((runSteps exSemU exJobU exClU (Sys.init exJobU exClU) exStepsU2).map
+    (fun s => (s.env.purged, s.ctl.dsHost ⟨0, 0⟩ 1, s.env.present 1 ⟨0, 0⟩))) =
+    some ([(0, ⟨0, 0⟩), (1, ⟨0, 0⟩)], .available, none) := by
+  decide
+example : ((runSteps exSemU exJobU exClU (Sys.init exJobU exClU) exStepsU2).map (fun s => (s.env.viol, s.err))) =
+    some ([], none) := by
+  decide
+end
+
+/-- **Belief implies truth for every dataset that is still needed**: a host the controller believes to hold `ds`
+(`available`) does hold it as long as `ds` has an unfinished consumer or is an undelivered requested output. -/
+theorem c04_belief_sound_partial (f : Sem) (j : Job) (cl : Cluster) (wf : WF j cl) (s : Sys) (hr : Reachable f j cl s)
+    (h : Host) (ds : Ds) (hav : s.ctl.dsHost ds h = .available) (hn : needed j s.ctl ds) :
+    (s.env.present h ds).isSome = true :=
+  (invAll_reachable f j cl wf s hr).h4.avail_present h ds hav hn
+
+/-- without `needed` it fails: the state after a late transfer notice for a purged dataset -/
+theorem c04_belief_sound_full_fails :
+    ¬ (∀ (f : Sem) (j : Job) (cl : Cluster) (s : Sys), Reachable f j cl s →
+        ∀ h ds, s.ctl.dsHost ds h = .available → (s.env.present h ds).isSome = true) := by
+  intro hall
+  cases hrun : runSteps exSemU exJobU exClU (Sys.init exJobU exClU) exStepsU2 with
+  | none =>
+    have : (runSteps exSemU exJobU exClU (Sys.init exJobU exClU) exStepsU2).isSome = true := by decide
+    rw [hrun] at this; cases this
+  | some s =>
+    have hr := aux_runSteps_reachable exSemU exJobU exClU exStepsU2 _ s Reachable.init hrun
+    have h1 : ((runSteps exSemU exJobU exClU (Sys.init exJobU exClU) exStepsU2).map
+        (fun s => (s.ctl.dsHost ⟨0, 0⟩ 1, s.env.present 1 ⟨0, 0⟩))) = some (.available, none) := by decide
+    rw [hrun] at h1
+    simp only [Option.map_some, Option.some.injEq, Prod.mk.injEq] at h1
+    have := hall exSemU exJobU exClU s hr 1 ⟨0, 0⟩ h1.1
+    rw [h1.2] at this; cases this
 
 /-! non-vacuity: a two-output task is RUNNING (first output published and already announced to the controller, second not
 yet) while the controller goes through a full receive/notify round; the notice of an unpublished output cannot be received -/
